@@ -821,12 +821,37 @@ def _nary(t):
     return _nary(t['l']) or _nary(t['r'])
 
 
+def _chainlen(t):
+    if t.get('op') not in ('AND', 'OR', 'XOR'):
+        return 1
+    n, x = 1, t
+    while x.get('op') == t['op']:
+        n += 1
+        x = x['l']
+    return n
+
+
+def _shape(t):
+    if t.get('op') in (None, 'NIL'):
+        return 'nil'
+    if t['op'] == 'VAR':
+        return 'x'
+    return '(%s %s %s)' % (t['op'], _shape(t.get('l', {})), _shape(t.get('r', {})))
+
+
 def ctc_tags(c):
     tags = set()
+    asts = [k['ast'] for k in c['model']['ctcs']]
+    if len({_json.dumps(a, sort_keys=True) for a in asts}) < len(asts):
+        tags.add('dupctc')            # the same constraint twice
+    if len({_shape(a) for a in asts}) < len(asts):
+        tags.add('sameshapectc')      # two constraints equal up to the names in them
     for k in c['model']['ctcs']:
         ast_tags(k['ast'], tags)
         if _nary(k['ast']):
             tags.add('nary')
+        if _chainlen(k['ast']) >= 6:
+            tags.add('longchain')
     for f in c['model']['feats']:
         for a in f['attrs']:
             tags.add('attrval:' + a['val'].split(':')[0])
@@ -837,7 +862,7 @@ def ctc_tags(c):
     return tags
 
 
-UVL_WANTED = ['typed', 'fcard', 'star', 'abstract', 'cardinality', 'mutex', 'alternative', 'or', 'mandatory', 'optional',
+UVL_WANTED = ['dupctc', 'sameshapectc', 'typed', 'fcard', 'star', 'abstract', 'cardinality', 'mutex', 'alternative', 'or', 'mandatory', 'optional',
               'multi-rel-parent', 'attrval:n', 'attrval:b', 'attrval:i', 'attrval:negint', 'attrval:longdec', 'attrval:d', 'attrval:s', 'attrval:l', 'attrval:m',
               'op:NOT', 'op:AND', 'op:OR', 'op:IMPLIES', 'op:EQUIVALENCE', 'op:EQUALS', 'op:LOWER', 'op:GREATER',
               'op:LOWER_EQUALS', 'op:GREATER_EQUALS', 'op:NOT_EQUALS', 'op:ADD', 'op:SUB', 'op:MUL', 'op:DIV', 'op:SUM', 'op:AVG']
@@ -864,8 +889,8 @@ def readref_script(fmt):
     return script
 
 
-prop('C04', ['uvl-Type', 'uvl-FCard', 'uvl-Attr', 'uvl-Star', 'uvl-Abs', 'Ref-uvl-Ctc', 'Ref-uvl-Arith', 'Ref-Mix', 'Surface-uvl'],
-     name_classes=('space', 'punct', 'uvlkw', 'digit0', 'long'), naming_matters=True, prepare=prepare_surface(UVL_WANTED, 12),
+prop('C04', ['uvl-Type', 'uvl-FCard', 'uvl-Attr', 'uvl-Star', 'uvl-Abs', 'Ref-uvl-Ctc', 'Ref-uvl-Arith', 'Ref-Mix', 'uvl-Dup', 'Surface-uvl'],
+     name_classes=('space', 'punct', 'uvlkw', 'digit0', 'long', 'casepair'), naming_matters=True, prepare=prepare_surface(UVL_WANTED, 12),
      assumptions=['the reference emitter (harness/emit_ref.py) is written from the UVL grammar and is trusted',
                   'own-line comments and blank lines between sections are not emitted: the installed uvlparser '
                   '(a dependency) rejects them', 'sub-expressions are always parenthesised, so the oracle never '
@@ -874,8 +899,8 @@ prop('C04', ['uvl-Type', 'uvl-FCard', 'uvl-Attr', 'uvl-Star', 'uvl-Abs', 'Ref-uv
 
 
 REF_FORMATS = {
-    'fide': dict(surface='Surface-fide', sources=['fide-Tree', 'fide-Ctc', 'fide-Abs', 'Ref-fide-Ctc3'], size=10,
-                 wanted=['mandatory', 'optional', 'or', 'alternative', 'abstract', 'multi-rel-parent', 'nary', 'op:NOT', 'op:AND',
+    'fide': dict(surface='Surface-fide', sources=['fide-Tree', 'fide-Ctc', 'fide-Abs', 'Ref-fide-Ctc3', 'Ref-Chain', 'fide-Dup'], size=12,
+                 wanted=['longchain', 'dupctc', 'sameshapectc', 'mandatory', 'optional', 'or', 'alternative', 'abstract', 'multi-rel-parent', 'nary', 'op:NOT', 'op:AND',
                          'op:OR', 'op:IMPLIES', 'op:EQUIVALENCE', 'op:REQUIRES', 'op:EXCLUDES'],
                  ok=lambda m: True),
     'xml': dict(surface='Surface-xml', sources=['Ref-xml', 'Tree', 'Ref-xml-Wide'], size=10,
@@ -884,12 +909,12 @@ REF_FORMATS = {
                 ok=lambda m: all(c['ast']['op'] in ('REQUIRES', 'EXCLUDES') and c['ast']['l']['op'] == 'VAR'
                                  and c['ast']['r']['op'] == 'VAR' for c in m['ctcs'])
                 and len({c['name'] for c in m['ctcs']}) == len(m['ctcs'])),
-    'afm': dict(surface='Surface-afm', sources=['Ref-afm-Mix', 'afm-Ctc2'], size=10,
-                wanted=['mandatory', 'optional', 'or', 'alternative', 'mutex', 'cardinality', 'multi-rel-parent', 'attr',
+    'afm': dict(surface='Surface-afm', sources=['Ref-afm-Mix', 'afm-Ctc2', 'afm-Dup'], size=12,
+                wanted=['dupctc', 'sameshapectc', 'mandatory', 'optional', 'or', 'alternative', 'mutex', 'cardinality', 'multi-rel-parent', 'attr',
                         'op:NOT', 'op:AND', 'op:OR', 'op:IMPLIES', 'op:EQUIVALENCE', 'op:REQUIRES', 'op:EXCLUDES'],
                 ok=lambda m: True),
-    'glencoe': dict(surface='Surface-glencoe', sources=['Ref-glencoe-Ctc', 'glencoe-Tree'], size=10,
-                    wanted=['mandatory', 'optional', 'or', 'alternative', 'mutex', 'cardinality', 'op:NOT', 'op:AND', 'op:OR',
+    'glencoe': dict(surface='Surface-glencoe', sources=['Ref-glencoe-Ctc', 'glencoe-Tree', 'Ref-Chain', 'glencoe-Dup'], size=12,
+                    wanted=['longchain', 'dupctc', 'sameshapectc', 'mandatory', 'optional', 'or', 'alternative', 'mutex', 'cardinality', 'op:NOT', 'op:AND', 'op:OR',
                             'op:XOR', 'op:IMPLIES', 'op:EQUIVALENCE', 'op:REQUIRES', 'op:EXCLUDES'],
                     ok=lambda m: len({c['name'] for c in m['ctcs']}) == len(m['ctcs'])),
 }
@@ -935,7 +960,7 @@ def prepare_c09(cases, tier, seed):
 
 
 @prop('C09', sorted({s for v in REF_FORMATS.values() for s in v['sources'] + [v['surface']]}),
-      name_classes=('space', 'nonascii'), naming_matters=True, prepare=prepare_c09,
+      name_classes=('space', 'nonascii', 'casepair'), naming_matters=True, prepare=prepare_c09,
       assumptions=['the four reference emitters (harness/emit_ref.py) are trusted; the Glencoe emitter is limited to syntactic '
                    'freedom because no definition of the format other than this library is available offline',
                    'corpus files above the size bound are judged on the twelve summary numbers only (counted by the harness, '
@@ -947,9 +972,14 @@ def script_c09(case, naming, tier, seed):
             return [], None
         ev, _ = formats.corpus_event(case['corpus'], None, FULL_BOUND[tier])
         return [ev], {'key': case['corpus'], 'nontrivial': True}
-    if case['fmt'] == 'afm' and naming.classes != ('plain',):
-        return [], None
-    nm = naming if case['fmt'] != 'afm' else names.Naming(('afmword',), 0, naming.seed)
+    nm = naming
+    if case['fmt'] == 'afm':      # AFM identifiers: the plain naming becomes afmword, casepair becomes afmcase
+        if naming.classes == ('plain',):
+            nm = names.Naming(('afmword',), 0, naming.seed)
+        elif naming.classes == ('casepair',):
+            nm = names.Naming(('afmcase',), naming.k, naming.seed)
+        else:
+            return [], None
     ev, text = formats.readref_event(case['fmt'], case['model'], nm, case['ch'], case['broken'])
     return [ev], {'key': [case['fmt'], case['poolidx'], case['ch'], case['broken']], 'nontrivial': True}
 
